@@ -222,7 +222,7 @@ def l2(cx):
     cx.need(ndesc >= 30, f"only {ndesc} struct descriptors enumerated")
 
 
-@rule("L2c", ["C09", "C01", "C06"], "struct copy-construction (field-wise path): every field of the copy lands where the documented layout puts it, for constructor-made and view-made sources")
+@rule("L2c", ["C09", "C01", "C06", "C05"], "struct copy-construction (field-wise path): every field of the copy lands where the documented layout puts it, for constructor-made and view-made sources")
 def l2c(cx):
     """The field-wise arm of Struct._to_buffer is the only arm a struct containing references may take when
     it is copied (G1).  Its source is another handle: its plan (`_inspect_args(instance)`) reuses the
@@ -343,7 +343,7 @@ def _elem_size_atom(idx):
     return Poly.atom(f"n_e{_idx(idx)}")
 
 
-@rule("L1", ["C01", "C03", "C05", "C06", "C02"], "array: metaclass, planner, writer, reader, locators and documented layout agree for every shape/order/item descriptor")
+@rule("L1", ["C01", "C03", "C05", "C06", "C02", "C10"], "array: metaclass, planner, writer, reader, locators and documented layout agree for every shape/order/item descriptor")
 def l1(cx):
     m = cx.m
     check_docs(m, cx)
@@ -821,18 +821,27 @@ def g1b(cx):
         out["array of structs with a Ref"] = I.getattr(lab.array("A3", (3,), (0,), S0), "_has_refs")
         A3 = lab.array("A4", (None,), (0,), S0)
         out["struct with an array of structs with a Ref"] = I.getattr(lab.struct("SA", [("k", sc), ("arr", A3)]), "_has_refs")
+        # the other documented way of declaring a field: an explicit xo.Field(type, ...) object (seeded C09-g computed
+        # the flag only where a bare type is wrapped)
+        Field = I.global_lookup("struct", "Field")
+        fld = lambda t, **kw: I.call(Field, [t], kw)
+        out["struct whose Ref field is declared as xo.Field(Ref)"] = I.getattr(lab.struct("SF1", [("a", sc), ("r", fld(R))]), "_has_refs")
+        out["struct whose UnionRef field is declared as xo.Field(UnionRef)"] = I.getattr(lab.struct("SF2", [("u", fld(U)), ("a", sc)]), "_has_refs")
+        out["struct nesting, through xo.Field, a struct with a Ref"] = I.getattr(lab.struct("SF3", [("x", sc), ("n", fld(S0))]), "_has_refs")
+        out["struct with xo.Field(array of Ref)"] = I.getattr(lab.struct("SF4", [("x", sc), ("arr", fld(lab.array("A5", (2,), (0,), R)))]), "_has_refs")
+        out["plain struct declared with xo.Field(scalar, default)"] = I.getattr(lab.struct("SF5", [("x", fld(sc, default=1.5)), ("y", sc)]), "_has_refs")
         return None
 
     res = I.explore(thunk, max_paths=8)
     if len(res) != 1 or res[0]["exc"] is not None:
         e = res[0]["exc"]
         raise AnalysisError(f"[G1b] the metaclasses cannot be evaluated: {e.etype if e else 'fork'}: {e.msg if e else res[0]['conds']}")
-    want_false = {"plain struct", "array of scalars", "array of plain structs"}
+    want_false = {"plain struct", "array of scalars", "array of plain structs", "plain struct declared with xo.Field(scalar, default)"}
     for k, v in out.items():
         want = k not in want_false
         cx.check(v is want, None, construct=f"{k}: _has_refs = {v!r}", detail="flag follows the presence of references inside the type",
                  bad_detail=(f"_has_refs is {v!r} for a type that contains references: its instances would be byte-copied, duplicating relative reference words verbatim" if want else f"_has_refs is {v!r} for a reference-free type"),
-                 anchor="struct::MetaStruct.__new__" if k.startswith("struct") or k == "plain struct" else ("array::MetaArray.__new__" if k.startswith("array") else "ref::Ref"))
+                 anchor="struct::MetaStruct.__new__" if k.startswith("struct") or k.startswith("plain struct") else ("array::MetaArray.__new__" if k.startswith("array") else "ref::Ref"))
     cx.need(len(out) >= 13, "G1b cases")
 
 
